@@ -3463,6 +3463,12 @@ func (t *Topic) evictUser(uid types.Uid, unsub bool, skip string) {
 			}
 		}
 	}
+
+	// If the evicted sessions were the last ones attached, start the kill timer: nobody will send a {leave}
+	// on their behalf and the topic would otherwise stay loaded (and reported online) forever.
+	if len(t.sessions) == 0 && t.cat != types.TopicCatSys && t.killTimer != nil {
+		t.killTimer.Reset(idleMasterTopicTimeout)
+	}
 }
 
 // User's subscription to a topic has changed, send presence notifications.
